@@ -1,6 +1,7 @@
 (* C20 - the instruction trace shows the fetched bytes and their Y86-64 disassembly.
    Property theorems only; proofs live in DisasmProofs.v. *)
 From HclV Require Import Base Disasm DisasmProofs.
+From HclV Require TraceSpec TraceProofs.
 Open Scope string_scope.
 Open Scope N_scope.
 
@@ -36,3 +37,13 @@ Print Assumptions C20_trace_bytes.
 Theorem C20_hex2 : forall b, b < 256 -> unhex (hex2 b) = Some b /\ String.length (hex2 b) = 2%nat.
 Proof. exact hex2_roundtrip. Qed.
 Print Assumptions C20_hex2.
+
+(* ---- the trace line of a cycle (TraceSpec.v / TraceProofs.v): read back, it gives the value of
+   the pc wire, the first len bytes of memory at pc in memory order (len by the opcode nibble of the
+   byte at pc, wrapping at 2^64), and the disassembly text *)
+Theorem C20_trace_line_of_a_cycle : TraceSpec.stmt_trace_line_cycle.
+Proof. exact TraceProofs.trace_line_cycle_holds. Qed.
+Print Assumptions C20_trace_line_of_a_cycle.
+Theorem C20_trace_line_reads_back : TraceSpec.stmt_trace_line_readback.
+Proof. exact TraceProofs.trace_line_readback_holds. Qed.
+Print Assumptions C20_trace_line_reads_back.
